@@ -1,0 +1,48 @@
+//go:build verif
+// +build verif
+
+// Machine-checked contracts for package safeio (comment-only; read by
+// /verif/govc, see /verif/DESIGN.md §3).  This file declares nothing.
+
+package safeio
+
+// The guard functions: the operating-system primitive is reached only when the
+// current context does not require iosafe; otherwise an error is returned and
+// nothing is touched.  `effects os-guarded` lets functions declared iosafe call
+// them (checked by the effect analysis, property C08).
+
+//@ func OpenFile
+//@   prop C08
+//@   arith bv
+//@   effects os-guarded
+//@   requires r != nil
+//@   modifies everything()
+//@   assert_before_call os.OpenFile: r.requiredFlags & runtime.ComplyIoSafe == 0
+//@   ensures old(r.requiredFlags) & runtime.ComplyIoSafe != 0 ==> result0 == nil && result1 != nil
+
+//@ func TempFile
+//@   prop C08
+//@   arith bv
+//@   effects os-guarded
+//@   requires r != nil
+//@   modifies everything()
+//@   assert_before_call io/ioutil.TempFile: r.requiredFlags & runtime.ComplyIoSafe == 0
+//@   ensures old(r.requiredFlags) & runtime.ComplyIoSafe != 0 ==> result0 == nil && result1 != nil
+
+//@ func RemoveFile
+//@   prop C08
+//@   arith bv
+//@   effects os-guarded
+//@   requires r != nil
+//@   modifies everything()
+//@   assert_before_call os.Remove: r.requiredFlags & runtime.ComplyIoSafe == 0
+//@   ensures old(r.requiredFlags) & runtime.ComplyIoSafe != 0 ==> result != nil
+
+//@ func RenameFile
+//@   prop C08
+//@   arith bv
+//@   effects os-guarded
+//@   requires r != nil
+//@   modifies everything()
+//@   assert_before_call os.Rename: r.requiredFlags & runtime.ComplyIoSafe == 0
+//@   ensures old(r.requiredFlags) & runtime.ComplyIoSafe != 0 ==> result != nil
